@@ -102,6 +102,7 @@ def create_clone(expression: exp.Expression) -> exp.Expression:
         return exp.Create(
             this=expression.this,
             kind="TABLE",
+            replace=expression.args.get("replace"),
             expression=exp.Select(
                 expressions=[
                     exp.Star(),
